@@ -36,18 +36,25 @@ Layout(s) ==
     IN [res |-> ro, arg |-> ao, size |-> AlignTo(last, 8)]
 
 Sigs == {[args |-> a, res |-> r] : a \in UNION {[1..n -> Lay] : n \in 0..MaxN}, r \in Lay \cup {Void}}
-Put(b, off, toks) == [j \in 1..Len(b) |-> IF j > off /\ j <= off + Len(toks) THEN toks[j - off] ELSE b[j]]
-Toks(kind, i, n) == [j \in 1..n |-> <<kind, i, j>>]
+Put(b, off, toks) == TLCEval([j \in 1..Len(b) |-> IF j > off /\ j <= off + Len(toks) THEN toks[j - off] ELSE b[j]])
+Toks(kind, i, n) == TLCEval([j \in 1..n |-> <<kind, i, j>>])
+\* struct arguments are given as a short initializer: cdata_call zeroes the slot (d72c0a3), then
+\* convert_from_object writes only the leading half; libffi must see zeros in the rest
+StructLay == {<<2, 1>>, <<3, 1>>, <<8, 4>>, <<12, 4>>, <<16, 8>>, <<24, 8>>}
+Given(a) == IF a \in StructLay THEN (a[1] + 1) \div 2 ELSE a[1]
+ArgToks(i, a) == TLCEval([j \in 1..a[1] |-> IF j <= Given(a) THEN <<"arg", i, j>> ELSE <<"zero", 0, 0>>])
+Stored(b, off, i, a) == IF Variant = "struct_nozero" THEN Put(b, off, Toks("arg", i, Given(a)))
+                        ELSE Put(b, off, ArgToks(i, a))
 RECURSIVE Marshalled(_, _, _, _)
 Marshalled(b, s, L, i) ==
     IF i > Len(s.args) THEN b
-    ELSE Marshalled(Put(Put(b, (i - 1) * 8, Toks("ptr", i, 8)), L.arg[i], Toks("arg", i, s.args[i][1])),
+    ELSE Marshalled(Stored(Put(b, (i - 1) * 8, Toks("ptr", i, 8)), L.arg[i], i, s.args[i]),
                     s, L, i + 1)
 
 Init == sig \in Sigs /\ pc = "marshal" /\ buf = <<>> /\ got = <<>>
 \* buffer = PyObject_Malloc(exchange_size); the loop over the arguments
 Marshal == /\ pc = "marshal"
-           /\ buf' = Marshalled([j \in 1..Layout(sig).size |-> <<"free", 0, 0>>], sig, Layout(sig), 1)
+           /\ buf' = Marshalled(TLCEval([j \in 1..Layout(sig).size |-> <<"free", 0, 0>>]), sig, Layout(sig), 1)
            /\ pc' = "call" /\ UNCHANGED <<sig, got>>
 \* ffi_call: libffi fetches argument i at the address stored in buffer_array[i], then stores the result
 Call == /\ pc = "call"
@@ -70,7 +77,7 @@ Aligned == /\ L.res % sig.res[2] = 0
            /\ \A i \in 1..Len(sig.args) : L.arg[i] % sig.args[i][2] = 0
 \* libffi saw exactly the pointers and argument bytes cdata_call stored
 ArgsIntact == pc \in {"read", "done"} =>
-                 \A i \in 1..Len(sig.args) : got[i].ptr = Toks("ptr", i, 8) /\ got[i].val = Toks("arg", i, sig.args[i][1])
+                 \A i \in 1..Len(sig.args) : got[i].ptr = Toks("ptr", i, 8) /\ got[i].val = ArgToks(i, sig.args[i])
 \* cdata_call reads ct_size bytes of the result at exchange_offset_arg[0]
 ResultIntact == (pc = "done" /\ sig.res # Void) =>
                    SubSeq(buf, L.res + 1, L.res + sig.res[1]) = Toks("res", 0, sig.res[1])
